@@ -200,8 +200,8 @@ def assert_string_is_a_valid_label(l) :
             raise ValueError("unexpected whitespace character in label.")
         if c in "+" :
             raise ValueError("unexpected character \"+\" in label.")
-        if c.count("->") > 0 :
-            raise ValueError("label cannot contain the \"->\" sequence.")
+    if l.count("->") > 0 :
+        raise ValueError("label cannot contain the \"->\" sequence.")
 
 def get_value_in_env(value, environment, default) :
     if isdict(value) :
